@@ -113,6 +113,13 @@ def const_expr(c):
         v = int(c["v"])
     elif "bytes" in c:
         v = bytes(c["bytes"])
+        # a reference to a slice / str stored in memory: fat pointer (address, length) with one relocation
+        if c.get("ptrs") and c.get("ty", "").startswith("&") and len(v) == 16:
+            for (off, tgt) in c["ptrs"]:
+                if off == 0 and tgt is not None:
+                    n = int.from_bytes(v[8:16], "little")
+                    if n <= len(tgt):
+                        v = bytes(tgt[:n])
     if "def" in c:
         return ('constdef', norm(c["def"]), c["ty"], v)
     return ('const', v, c["ty"])
